@@ -518,8 +518,16 @@ func (mc *machine) exec1(s Step) bool {
 			return false
 		}
 		if b.Term != nil {
+			if v, ok := b.Term.(value.Value); ok && mc.uses[v] > 0 {
+				// An invoke whose result is used must not be replaced (removed
+				// values have no users).
+				return false
+			}
 			mc.unuse(b.Term)
 			mc.probes["terminator replaced"]++
+			// The old terminator is gone before the operands of the new one are
+			// chosen (its result must not be picked as an operand).
+			b.Term = nil
 		}
 		var t ir.Terminator
 		switch s.K % nTermKinds {
